@@ -149,3 +149,7 @@ impl ReadResult<Entry> {
         }
     }
 }
+
+#[cfg(any(kani, pearl_verif))]
+#[path = "/verif/kani/read_result.rs"]
+mod verif_kani;
